@@ -36,6 +36,11 @@ SEEDS = {
     "C06b-exact-fit-last-cell": ("C06", "the last bucket ends exactly at the end of the padded buffer and its last profile cell is non-zero: that cell is not copied", ["C18"]),
     "C03b-bunchlength-from-option-alpha0": ("C03", "synchrotron frequency given with -f (far from what the alpha0 option implies, or many steps) together with the sinusoidal RF model: the kick slope follows the alpha0 option, drift and time step follow -f", ["C10"]),
     "C12b-projection-refresh-skipped": ("C12", "no wake impedance at all, RenormalizeCharge>0 and two cadences that do not both cover every renormalisation step: the renormalisation factor is taken from a stale projection", ["C10"]),
+    "C07b-formfactor-renorm-wrong-axis": ("C07", "position and energy axes with different cell sizes (different extents): the form-factor normalisation takes one cell size from the energy axis; unreachable from main(), which always builds equal extents", []),
+    "C01b-wholecell-shortcut-gains-charge": ("C01", "a per-row offset k+eps with 0 < eps < 1e-3 and interpolation order 2 or 4: the shifted cell's weight is pinned to 1 while the neighbour weights are kept", ["C02"]),
+    "C08b-nonlinear-rf-lastbunch": ("C08", "two or more bunches and the sinusoidal RF map (--LinearRF false): bunches beyond the first get no RF kick", []),
+    "C10b-csr-intensity-accumulates": ("C10", "two or more bunches and a radiation impedance that is non-zero on the grid: /CSR/Intensity of bunch b is the running total over bunches 0..b", ["C07"]),
+    "C04b-diffusion-number-capped": ("C04", "e1/cell^2 between 1/4 and 1/2 (short damping time, few steps, fine grid): the diffusion weight is capped at 1/4, equilibrium width sqrt(0.25/r)", ["C01"]),
     "C10-": ("C10", "", []),
     "C17-": ("C17", "", []),
 }
